@@ -39,6 +39,8 @@ type C12Script struct {
 	// HandleIncomingWebsocketMessage, i.e. on the read pump's goroutine, as the SHIP layer does
 	PeerAt  []int `json:"peerAt,omitempty"`
 	Replies int   `json:"replies,omitempty"`
+	// EmptyAt: writer 0's message with this number (1-based, 0 = none) has no bytes at all
+	EmptyAt int `json:"emptyAt,omitempty"`
 }
 
 type call struct {
@@ -203,7 +205,11 @@ func runC12(sc C12Script) *c12Result {
 							c.Panic = fmt.Sprint(r)
 						}
 					}()
-					if err := sut.WriteMessageToWebsocketConnection(payload(w, s, sc.MsgLen)); err != nil {
+					msg := payload(w, s, sc.MsgLen)
+					if w == 0 && sc.EmptyAt > 0 && s+1 == sc.EmptyAt {
+						msg = []byte{}
+					}
+					if err := sut.WriteMessageToWebsocketConnection(msg); err != nil {
 						c.Err = err.Error()
 					}
 				}()
@@ -360,6 +366,18 @@ func judgeC12(t *testing.T, sc C12Script) (key, msg string, res *c12Result) {
 	}
 	pos := map[[2]int]int{}
 	for i, f := range res.R {
+		if len(f) == 0 && sc.EmptyAt > 0 {
+			// the one message without bytes
+			k := [2]int{0, sc.EmptyAt - 1}
+			if _, dup := pos[k]; dup {
+				return "C12/duplicate", "the empty message was received twice", res
+			}
+			if c := idx[k]; c != nil && c.Err != "" {
+				return "C12/rejected-but-sent", fmt.Sprintf("the empty message was refused with %q but reached the peer", c.Err), res
+			}
+			pos[k] = i
+			continue
+		}
 		if len(f) != sc.MsgLen || len(f) < 3 {
 			return "C12/corrupt-frame", fmt.Sprintf("peer received a frame of %d bytes, messages have %d", len(f), sc.MsgLen), res
 		}
@@ -413,6 +431,9 @@ func genC12(t *rapid.T) C12Script {
 	sc.StallAfter = -1
 	if rapid.Bool().Draw(t, "stall") {
 		sc.StallAfter = rapid.IntRange(0, total).Draw(t, "stallAfter")
+	}
+	if rapid.IntRange(0, 5).Draw(t, "hasEmpty") == 0 {
+		sc.EmptyAt = rapid.IntRange(1, sc.PerWriter).Draw(t, "emptyAt")
 	}
 	if rapid.IntRange(0, 2).Draw(t, "peerTalks") == 0 {
 		sc.Replies = rapid.IntRange(1, 3).Draw(t, "replies")
